@@ -114,6 +114,10 @@ Inductive ev :=
 | Timeout               (* the in-flight request times out *)
 | Disconnect            (* the peer drops the link *)
 | Reconnect             (* a new pair-verify is run (new keys) where the code would run one *)
+| LateDisc              (* BLE: bleak delivers a disconnected callback although the link is up (keys dropped by
+                           _async_reset_connection_state), then the next operation starts: with no request in flight
+                           _populate_accessories_and_characteristics runs a new pair-verify on the same link.
+                           Ignored while a request is in flight; not an event of the IP / CoAP machines *)
 | ENext | EReplay (i : nat) | EFuture (k : nat) | ECorrupt.   (* CoAP event channel *)
 
 (* ===================================================================== IP *)
@@ -221,7 +225,7 @@ Definition ip_step (s : ip) (e : ev) : ip :=
   | Reconnect =>
       let s' := if i_closed s then s else ip_close s in
       mkIp (S (i_ep s)) 0 0 false [] 0 (i_nreq s) (i_log s')
-  | ENext | EReplay _ | EFuture _ | ECorrupt => s
+  | LateDisc | ENext | EReplay _ | EFuture _ | ECorrupt => s
   end.
 
 Definition ip_run (s : ip) (h : list ev) : ip := fold_left ip_step h s.
@@ -343,6 +347,11 @@ Definition ble_step (s : ble) (e : ev) : ble :=
       match b_sess s with
       | Some _ => s
       | None => mkBle (S (b_ep s)) (Some (0, 0)) (b_infl s) (b_wait s) 0 (b_nreq s) (b_log s)
+      end
+  | LateDisc =>
+      match b_infl s with
+      | Some _ => s
+      | None => mkBle (S (b_ep s)) (Some (0, 0)) None (b_wait s) 0 (b_nreq s) (b_log s)
       end
   | ENext | EReplay _ | EFuture _ | ECorrupt => s
   end.
@@ -481,7 +490,7 @@ Definition coap_step (s : coap) (e : ev) : coap :=
       end
   | Cancel => coap_abort s RCancel false
   | Timeout => coap_abort s RFail true
-  | Disconnect => s
+  | Disconnect | LateDisc => s
   | Reconnect =>
       (* do_pair_verify: the old context is shut down (an in-flight request gets a
          NetworkError, the waiters then run against coap_ctx = None), a new
